@@ -2,7 +2,7 @@
 import copy
 
 from ..runner import TestSpec, Outcome
-from ..terms import SchemaT, RuleT, PathT, Prim, show
+from ..terms import SchemaT, RuleT, PathT, Prim, Leaf, show
 from .. import model, build, gen as G
 from ..snapshot import exact, aliases
 from .c05 import check_rule_test
@@ -46,6 +46,21 @@ def gen_case(r):
         if rl.cast and c > 92:
             rl = rl.replace(path=PathT([]))
         rules.append(rl)
+    # a cast rule whose condition refers to ANOTHER node through a data-path argument: the
+    # reference, too, is resolved in the copy (where that node may have been cast)
+    if r.pct() < 18:
+        from . import c17
+        cast_rules = [i for i, rl in enumerate(rules) if rl.cast and rl.path.parts]
+        if cast_rules:
+            i = r.choice(cast_rules)
+            nodes = [(n, p) for n, p in c17.all_nodes(d) if isinstance(n, str)]
+            if nodes:
+                n, p = r.choice(nodes)
+                ref = PathT([Prim(k) for k in p])
+                nm = r.choice(["equal_to", "not_equal_to", "less_than_or_equal_to", "greater_than_or_equal_to", "in_"])
+                if nm == "in_":
+                    ref = PathT([Prim(k) for k in p[:-1]], "map_values" if isinstance(model.walk(d, p[:-1]), dict) else None) if p[:-1] else ref
+                rules[i] = rules[i].replace(cond=Leaf("value", None, nm, kwargs={"value": ref}))
     # plant castable strings where a cast rule selects only uncastable nodes
     GOOD = {"bool": ["true", "True", "TRUE", "false", "False", "FALSE", "tRuE"], "int": ["3", "-12", " 7 ", "0", "٣"]}
     for rl in rules:
